@@ -20,6 +20,26 @@ func (ex *Exec) atReturn(st *State, r *ssa.Return) {
 		results = append(results, ex.val(st, v))
 	}
 	for _, c := range ex.cons {
+		if len(c.GReturn) == 0 {
+			continue
+		}
+		e := ex.envFor(st, c)
+		ex.bindSelf(st, c, e)
+		for i, b := range c.Results {
+			if i < len(results) {
+				e.vars[b.Name] = BVal{Val: results[i]}
+			}
+		}
+		eo := *e
+		eo.cur = st.entry
+		for _, l := range c.Lets {
+			e.vars[l.Label] = (&eo).evalLetSafe(l)
+		}
+		for _, g := range c.GReturn {
+			ex.ghostUpdate(st, e, g)
+		}
+	}
+	for _, c := range ex.cons {
 		e := ex.envFor(st, c)
 		ex.bindSelf(st, c, e)
 		if len(c.Results) != len(results) {
@@ -120,9 +140,18 @@ func (ex *Exec) loopEnv(st *State, lp *Loop, phiVals map[*ssa.Phi]Term) *Env {
 			}
 		}
 		if !bound {
-			if v := ex.findNamedValue(st, b.Name); v != nil {
+			if v := ex.findNamedValue(st, b.Name, st.u().sortOf(ex.typeOfBinder(ex.con, b))); v != nil {
 				e.vars[b.Name] = BVal{Val: *v}
 				bound = true
+			}
+		}
+		if !bound && strings.HasPrefix(b.Type, "[]") {
+			// the (unnamed) slice a range loop iterates over
+			if rs := ex.rangeSliceOf(lp); rs != nil {
+				if t, ok := st.vals[rs]; ok {
+					e.vars[b.Name] = BVal{Val: t}
+					bound = true
+				}
 			}
 		}
 		if !bound {
@@ -134,7 +163,7 @@ func (ex *Exec) loopEnv(st *State, lp *Loop, phiVals map[*ssa.Phi]Term) *Env {
 
 // findNamedValue finds an SSA value that the debug info ties to a source
 // variable of the given name and that already has a term.
-func (ex *Exec) findNamedValue(st *State, name string) *Term {
+func (ex *Exec) findNamedValue(st *State, name string, want Sort) *Term {
 	var found *Term
 	for _, b := range ex.fn.Blocks {
 		for _, in := range b.Instrs {
@@ -143,7 +172,7 @@ func (ex *Exec) findNamedValue(st *State, name string) *Term {
 					_ = id
 				}
 				if obj := d.Object(); obj != nil && obj.Name() == name {
-					if t, ok := st.vals[d.X]; ok {
+					if t, ok := st.vals[d.X]; ok && t.Sort == want {
 						tt := t
 						found = &tt
 					}
@@ -327,7 +356,7 @@ func (ex *Exec) havocLoop(st *State, lp *Loop) {
 				}
 			case *ssa.MapUpdate:
 				mt := t.Map.Type().Underlying().(*types.Map)
-				d, v, l := st.mapFams(st.u().sortOf(mt.Key()), st.u().sortOf(mt.Elem()))
+				d, v, l := st.mapFamsT(mt)
 				root := rootOfAddr(t.Map)
 				for _, f := range []*Family{d, v, l} {
 					mark(f.Name, root)
@@ -424,7 +453,7 @@ func (ex *Exec) callModFamilies(st *State, c *ssa.Call) []string {
 			return []string{st.elemFam(st.u().sortOf(et)).Name}
 		case "delete":
 			mt := c.Call.Args[0].Type().Underlying().(*types.Map)
-			d, v, l := st.mapFams(st.u().sortOf(mt.Key()), st.u().sortOf(mt.Elem()))
+			d, v, l := st.mapFamsT(mt)
 			return []string{d.Name, v.Name, l.Name}
 		}
 		return nil
@@ -447,7 +476,9 @@ func (ex *Exec) callModFamilies(st *State, c *ssa.Call) []string {
 	}
 	var out []string
 	seen := map[string]bool{}
-	for _, cl := range con.Assigns {
+	var allAssigns []*Clause
+	allAssigns = append(allAssigns, con.Assigns...)
+	for _, cl := range allAssigns {
 		for _, ls := range e.evalAssigns(cl.Expr) {
 			if !seen[ls.Fam] {
 				seen[ls.Fam] = true
@@ -474,7 +505,11 @@ func (ex *Exec) typeOfBinder(c *Contract, b Binder) types.Type {
 	}
 	// types.Eval at package scope cannot see imports of the synthetic file;
 	// fall back to searching a clause function's signature
-	for _, cls := range [][]*Clause{c.Requires, c.Ensures, c.Assigns, c.Lets} {
+	allCls := [][]*Clause{c.Requires, c.Ensures, c.Assigns, c.Lets}
+	for _, lc := range c.Loops {
+		allCls = append(allCls, lc.Invariants)
+	}
+	for _, cls := range allCls {
 		for _, cl := range cls {
 			if obj := pk.Types.Scope().Lookup(cl.FnName); obj != nil {
 				sig := obj.Type().(*types.Signature)
@@ -611,18 +646,32 @@ func (ex *Exec) call(st *State, c *ssa.Call) {
 	ex.applyContract(st, c, con, bindings, args, fmt.Sprintf("call#%d:%s", ord, cname), cc.Value)
 }
 
+// expandContract: the contract followed by everything it includes (transitively).
+func (p *Program) expandContract(c *Contract) []*Contract {
+	var out []*Contract
+	seen := map[*Contract]bool{}
+	var rec func(c *Contract)
+	rec = func(c *Contract) {
+		if seen[c] {
+			return
+		}
+		seen[c] = true
+		out = append(out, c)
+		for _, inc := range c.Includes {
+			ic := p.Contracts[inc]
+			if ic == nil {
+				panic(execAbort{fmt.Sprintf("contract %s includes unknown contract %s", c.Name, inc)})
+			}
+			rec(ic)
+		}
+	}
+	rec(c)
+	return out
+}
+
 // applyContract: assert requires, frame-check and havoc assigns, assume ensures.
-func (ex *Exec) applyContract(st *State, c *ssa.Call, con *Contract, bindings []ssa.Value, args []Term, tag string, fval ssa.Value) {
-	e := &Env{st: st, pkgPath: con.PkgPath, info: ex.prog.infoFor(con.PkgPath), vars: map[string]BVal{}, cur: st.heap, old: st.heap, ghost: st.ghost, ghost0: st.ghost, allocLo: st.alloc}
-	i := 0
-	bs := []Binder{}
-	if con.Recv != nil {
-		bs = append(bs, *con.Recv)
-	}
-	bs = append(bs, con.Params...)
-	if len(bs) != len(args) {
-		ex.abort("STALE-CONTRACT: contract %s has %d parameters, call passes %d", con.Name, len(bs), len(args))
-	}
+func (ex *Exec) applyContract(st *State, c *ssa.Call, con0 *Contract, bindings []ssa.Value, args []Term, tag string, fval ssa.Value) {
+	cons := ex.prog.expandContract(con0)
 	var argVals []ssa.Value
 	if c != nil {
 		cc := c.Common()
@@ -631,26 +680,48 @@ func (ex *Exec) applyContract(st *State, c *ssa.Call, con *Contract, bindings []
 		}
 		argVals = append(argVals, cc.Args...)
 	}
-	for _, b := range bs {
-		bv := BVal{Val: args[i]}
-		if i < len(argVals) {
-			bv.SSA = argVals[i]
-		}
-		e.vars[b.Name] = bv
-		i++
+	pos := token.NoPos
+	if c != nil {
+		pos = c.Pos()
 	}
-	if con.Parent != nil {
-		// a callee contract of a parameter of this very function: the parent's binders are this function's parameters
-		pe := ex.envFor(st, con.Parent)
-		ex.bindSelf(st, con.Parent, pe)
-		for k, v := range pe.vars {
-			if _, dup := e.vars[k]; !dup {
-				e.vars[k] = v
+	envs := make([]*Env, len(cons))
+	for ci, con := range cons {
+		e := &Env{st: st, pkgPath: con.PkgPath, info: ex.prog.infoFor(con.PkgPath), vars: map[string]BVal{}, cur: st.heap, old: st.heap, ghost: st.ghost, ghost0: st.ghost, allocLo: st.alloc}
+		envs[ci] = e
+		bs := []Binder{}
+		if con.Recv != nil {
+			bs = append(bs, *con.Recv)
+		}
+		bs = append(bs, con.Params...)
+		off := 0
+		if len(bs) == len(args)+1 && con.Kind == "interface" {
+			// an interface-method contract applied to a plain function value: the receiver binder is the function value
+			t := ex.typeOfBinder(con, bs[0])
+			e.vars[bs[0].Name] = BVal{Val: st.sc.fresh("self", st.u().sortOf(t))}
+			off = 1
+		} else if len(bs) != len(args) {
+			ex.abort("STALE-CONTRACT: contract %s has %d parameters, call passes %d", con.Name, len(bs), len(args))
+		}
+		for i, b := range bs[off:] {
+			bv := BVal{Val: args[i]}
+			if i < len(argVals) {
+				bv.SSA = argVals[i]
+			}
+			e.vars[b.Name] = bv
+		}
+		if con.Parent != nil {
+			pe := ex.envFor(st, con.Parent)
+			ex.bindSelf(st, con.Parent, pe)
+			for k, v := range pe.vars {
+				if _, dup := e.vars[k]; !dup {
+					e.vars[k] = v
+				}
 			}
 		}
-	}
-	if len(con.Captures) > 0 {
-		if bindings != nil {
+		if len(con.Captures) > 0 {
+			if bindings == nil {
+				ex.abort("call of closure %s with captures through an unknown function value", con.Name)
+			}
 			if len(bindings) != len(con.Captures) {
 				ex.abort("STALE-CONTRACT: closure %s captures %d variables, contract declares %d", con.Name, len(bindings), len(con.Captures))
 			}
@@ -658,42 +729,57 @@ func (ex *Exec) applyContract(st *State, c *ssa.Call, con *Contract, bindings []
 				l := ex.locOf(st, bindings[k])
 				e.vars[b.Name] = BVal{Cell: &l}
 			}
-		} else {
-			ex.abort("call of closure %s with captures through an unknown function value", con.Name)
+		}
+		for _, l := range con.Lets {
+			e.vars[l.Label] = e.evalLetSafe(l)
 		}
 	}
-	for _, l := range con.Lets {
-		e.vars[l.Label] = e.evalLetSafe(l)
-	}
-	pos := c.Pos()
 	// 0. function-typed arguments must refine the callee contract declared for the parameter
-	for k, b := range bs {
-		kc := ex.prog.Contracts[con.Target+"#"+b.Name]
-		if kc == nil || k >= len(argVals) {
-			continue
+	{
+		con := cons[0]
+		bs := []Binder{}
+		if con.Recv != nil {
+			bs = append(bs, *con.Recv)
 		}
-		ex.checkRefinement(st, e, kc, argVals[k], tag+"#"+b.Name, pos)
+		bs = append(bs, con.Params...)
+		for k, b := range bs {
+			kc := ex.prog.Contracts[con.Target+"#"+b.Name]
+			if kc == nil || k >= len(argVals) {
+				continue
+			}
+			ex.checkRefinement(st, envs[0], kc, argVals[k], tag+"#"+b.Name, pos)
+		}
 	}
 	// 1. preconditions
-	for k, cl := range con.Requires {
-		name := fmt.Sprintf("pre@%s/#%d", tag, k+1)
-		if cl.Label != "" {
-			name = fmt.Sprintf("pre@%s/%s", tag, cl.Label)
+	for ci, con := range cons {
+		for k, cl := range con.Requires {
+			name := fmt.Sprintf("pre@%s/#%d", tag, k+1)
+			if cl.Label != "" {
+				name = fmt.Sprintf("pre@%s/%s", tag, cl.Label)
+			}
+			if ci > 0 {
+				name = fmt.Sprintf("pre@%s/%s/%s", tag, con.Name, strings.TrimPrefix(name, "pre@"+tag+"/"))
+			}
+			st.sc.comment("callee requires %s", cl.Text)
+			st.check(name, "pre", envs[ci].eval(cl.Expr), "precondition of "+con.Name+": "+cl.Text, cl.Props, pos)
 		}
-		st.sc.comment("callee requires %s", cl.Text)
-		st.check(name, "pre", e.eval(cl.Expr), "precondition of "+con.Name+": "+cl.Text, cl.Props, pos)
 	}
 	// 2. frame + havoc
 	pre := copyMap(st.heap)
 	preAlloc := st.alloc
 	var locsets []LocSet
-	for _, cl := range con.Assigns {
-		locsets = append(locsets, e.evalAssigns(cl.Expr)...)
+	for ci, con := range cons {
+		for _, cl := range con.Assigns {
+			locsets = append(locsets, envs[ci].evalAssigns(cl.Expr)...)
+		}
 	}
 	if len(locsets) > 0 {
 		var cs []Term
 		for _, ls := range locsets {
 			ft := frameTarget{Fam: ls.Fam, Obj: ls.Obj}
+			if ls.Ghost {
+				continue // ghost state is not subject to the frame
+			}
 			if ls.Region {
 				ok := false
 				for _, mine := range ex.assign {
@@ -708,9 +794,13 @@ func (ex *Exec) applyContract(st *State, c *ssa.Call, con *Contract, bindings []
 				lo, hi := ls.Lo, ls.Hi
 				ft.Lo, ft.Hi = &lo, &hi
 			}
-			cs = append(cs, ex.assignableCond(st, ft))
+			ac := ex.assignableCond(st, ft)
+			if ls.Guard != nil {
+				ac = implies(*ls.Guard, ac)
+			}
+			cs = append(cs, ac)
 		}
-		st.check(fmt.Sprintf("frame/%s", tag), "frame", and(cs...), "callee "+con.Name+" writes only memory this function may write", nil, pos)
+		st.check(fmt.Sprintf("frame/%s", tag), "frame", and(cs...), "callee "+con0.Name+" writes only memory this function may write", nil, pos)
 		byFam := map[string][]LocSet{}
 		var order []string
 		for _, ls := range locsets {
@@ -735,16 +825,20 @@ func (ex *Exec) applyContract(st *State, c *ssa.Call, con *Contract, bindings []
 						cs = append(cs, tTrue)
 						continue
 					}
+					g := tTrue
+					if ls.Guard != nil {
+						g = *ls.Guard
+					}
 					if isElem {
 						_, abs := elemAbs(p)
-						c := eq(p[0], ls.Obj)
+						c := and(g, eq(p[0], ls.Obj))
 						if ls.Ranged {
 							c = and(c, le(ls.Lo, abs), lt(abs, ls.Hi))
 						}
 						cs = append(cs, c)
 						continue
 					}
-					cs = append(cs, eq(p[0], ls.Obj))
+					cs = append(cs, and(g, eq(p[0], ls.Obj)))
 				}
 				return or(cs...)
 			}, func(p []Term) Term {
@@ -761,34 +855,41 @@ func (ex *Exec) applyContract(st *State, c *ssa.Call, con *Contract, bindings []
 	st.alloc = na
 	// 3. results
 	var results []Term
-	sig := c.Common().Signature()
-	for k := 0; k < sig.Results().Len(); k++ {
-		rt := sig.Results().At(k).Type()
-		s := st.u().sortOf(rt)
-		r := st.sc.fresh("ret_"+sanitize(con.Name), s)
-		st.assumeWellFormed(r, rt)
-		results = append(results, r)
-	}
-	if len(con.Results) != len(results) {
-		ex.abort("STALE-CONTRACT: contract %s declares %d results, callee returns %d", con.Name, len(con.Results), len(results))
-	}
-	for k, b := range con.Results {
-		e.vars[b.Name] = BVal{Val: results[k]}
+	if c != nil {
+		sig := c.Common().Signature()
+		for k := 0; k < sig.Results().Len(); k++ {
+			rt := sig.Results().At(k).Type()
+			s := st.u().sortOf(rt)
+			r := st.sc.fresh("ret_"+sanitize(con0.Name), s)
+			st.assumeWellFormed(r, rt)
+			results = append(results, r)
+		}
 	}
 	// 4. postconditions: cur = post state, old = pre state
-	e.cur = st.heap
-	e.old = pre
-	e.allocLo = preAlloc
-	for _, cl := range con.Ensures {
-		st.sc.comment("callee ensures %s", cl.Text)
-		st.sc.assert(e.eval(cl.Expr))
+	for ci, con := range cons {
+		if len(con.Results) != len(results) {
+			ex.abort("STALE-CONTRACT: contract %s declares %d results, callee returns %d", con.Name, len(con.Results), len(results))
+		}
+		e := envs[ci]
+		for k, b := range con.Results {
+			e.vars[b.Name] = BVal{Val: results[k]}
+		}
+		e.cur = st.heap
+		e.old = pre
+		e.allocLo = preAlloc
+		for _, cl := range con.Ensures {
+			st.sc.comment("callee ensures %s", cl.Text)
+			st.sc.assert(e.eval(cl.Expr))
+		}
 	}
-	switch len(results) {
-	case 0:
-	case 1:
-		st.vals[c] = results[0]
-	default:
-		st.tuples[c] = results
+	if c != nil {
+		switch len(results) {
+		case 0:
+		case 1:
+			st.vals[c] = results[0]
+		default:
+			st.tuples[c] = results
+		}
 	}
 }
 
@@ -808,7 +909,7 @@ func (ex *Exec) builtin(st *State, c *ssa.Call, bi *ssa.Builtin) {
 			st.vals[c] = app(SInt, "gstr.len", x)
 		case SInt:
 			mt := args[0].Type().Underlying().(*types.Map)
-			_, _, l := st.mapFams(st.u().sortOf(mt.Key()), st.u().sortOf(mt.Elem()))
+			_, _, l := st.mapFamsT(mt)
 			r := st.sc.fresh("maplen", SInt)
 			st.sc.assert(eq(r, ite(eq(x, intLit(0)), intLit(0), st.readFam(st.heap, l, x))))
 			st.sc.assert(le(intLit(0), r))
@@ -852,7 +953,7 @@ func (ex *Exec) builtin(st *State, c *ssa.Call, bi *ssa.Builtin) {
 		mt := args[0].Type().Underlying().(*types.Map)
 		m := ex.val(st, args[0])
 		k := ex.val(st, args[1])
-		d, vf, l := st.mapFams(st.u().sortOf(mt.Key()), st.u().sortOf(mt.Elem()))
+		d, vf, l := st.mapFamsT(mt)
 		_ = vf
 		ex.frameCheck(st, fmt.Sprintf("frame/delete#%d", ord), c.Pos(), args[0], []frameTarget{{Fam: d.Name, Obj: m}, {Fam: l.Name, Obj: m}})
 		was := and(neq(m, intLit(0)), st.readFam(st.heap, d, m, k))
@@ -1043,4 +1144,31 @@ func (ex *Exec) applyPureClosure(e *Env, n ast.Node, bv BVal, args []Term) Term 
 		fe.vars[b.Name] = BVal{Val: args[i]}
 	}
 	return fe.eval(be.Y)
+}
+
+// rangeSliceOf: for a rangeindex loop, the slice value indexed by the loop's index
+func (ex *Exec) rangeSliceOf(lp *Loop) ssa.Value {
+	var idxPhi *ssa.Phi
+	for _, in := range lp.Header.Instrs {
+		if phi, ok := in.(*ssa.Phi); ok && phi.Comment == "rangeindex" {
+			idxPhi = phi
+		}
+	}
+	if idxPhi == nil {
+		return nil
+	}
+	var inc ssa.Value
+	for _, in := range lp.Header.Instrs {
+		if bo, ok := in.(*ssa.BinOp); ok && bo.X == idxPhi {
+			inc = bo
+		}
+	}
+	for b := range lp.Blocks {
+		for _, in := range b.Instrs {
+			if ia, ok := in.(*ssa.IndexAddr); ok && (ia.Index == inc || ia.Index == idxPhi) {
+				return ia.X
+			}
+		}
+	}
+	return nil
 }
